@@ -361,3 +361,118 @@ Proof.
   - apply gen_error_handler_is_ref.
   - apply gen_excview_tween_is_ref.
 Qed.
+
+(* ---- one request object through invoke_request twice (retrying execution policy) *)
+Lemma good_retry_body first second mode :
+  good 0 first -> good 0 second -> good 0 (retry_body first second mode).
+Proof.
+  intros Hf Hs st st' r E T. unfold retry_body in E.
+  destruct (first st) as [st1 r1] eqn:E1. pose proof (Hf _ _ _ E1 T) as X1.
+  pose proof (ext_top _ _ _ X1 T) as T1.
+  assert (Hsec : forall r', seq log_retry second st1 = (st', r') -> ext st st').
+  { intros r' E2. unfold seq, bind, log_retry in E2.
+    pose proof (log_ev_ext 0 P_RETRY 0 st1 T1) as X2.
+    pose proof (ext_top _ _ _ X2 T1) as T2.
+    eapply ext_trans; [exact X1|]. eapply ext_trans; [exact X2|]. eapply Hs; eassumption. }
+  destruct r1 as [v|k].
+  - destruct mode; [eapply Hsec; exact E|]. injection E as <- _. exact X1.
+  - eapply Hsec; exact E.
+Qed.
+
+Theorem retry_depth : forall ev mode sc1 sc2 s0 st r,
+  run_retry ev mode sc1 sc2 s0 = (st, r) ->
+  stk st = s0 /\ Forall (fun e => e_cur e = true) (log st).
+Proof.
+  intros ev mode sc1 sc2 s0 st r E. unfold run_retry in E.
+  assert (N : neutral (with_fresh_request
+     (frame 0 (retry_body (invoke_request ev 0 sc1 true None) (invoke_request ev 0 sc2 true None) mode)))).
+  { apply neutral_fresh. apply neutral_frame. apply good_retry_body; apply good_invoke_request; intros sr X; discriminate X. }
+  destruct (N _ _ _ E) as [S [new [L C]]]. simpl in S, L. split; [exact S|]. rewrite L. exact C.
+Qed.
+
+Lemma judge_pass_own sc L : judge_pass sc 0 0 [] L = judge_own 0 sc true L.
+Proof. reflexivity. Qed.
+
+Theorem retry_first_attempt_judged : forall ev sc1 st st1 r1,
+  valid_level sc1 = true -> rq st = [] -> fq st = [] -> nr st = 0 -> nf st = 0 ->
+  invoke_request ev 0 sc1 true None st = (st1, r1) ->
+  exists new, log st1 = log st ++ new /\
+    (Forall (fun e => e_cur e = true) new -> judge_pass sc1 0 0 [] new = true).
+Proof.
+  intros ev sc1 st st1 r1 V Hr Hf Hnr Hnf E.
+  assert (Hsub : forall sr, @None M = Some sr -> pres (Rsub 0 never) sr) by (intros sr X; discriminate X).
+  destruct (request_judged 0 sc1 V never None Hsub ev true st st1 r1 Hr Hf Hnr Hnf E) as [new [L [F [S J]]]].
+  exists new. split; [exact L|]. intros C. rewrite judge_pass_own.
+  destruct S as [S|S]; [|contradiction].
+  assert (Hl : Forall (fun e => e_lvl e = 0) new).
+  { rewrite Forall_forall in *. intros e I. 
+    destruct (N.eq_dec (e_lvl e) 0) as [Z|Z]; [exact Z|exfalso].
+    assert (In e (ge_log (0 + 1) new)) as X.
+    { unfold ge_log. apply filter_In. split; [exact I|]. apply N.leb_le. lia. }
+    rewrite S in X. exact X. }
+  destruct (own_all 0 new Hl) as [O _]. rewrite <- O at 1. apply J. exact C.
+Qed.
+
+Definition quiet_fin (sc : scn) : Prop :=
+  (forall n, find_fault (s_faults sc) P_FIN_CB n = 0) /\ (forall rg, In rg (s_regs sc) -> r_pt rg <> P_FIN_CB).
+
+(* both attempts of a retried request: the finished callbacks pending when the try body of an attempt ends run
+   once, in order, after everything else of that attempt; the second attempt starts with an empty deque, so what
+   runs at its end is exactly what was registered during it *)
+Theorem retry_finished_callbacks : forall ev mode sc1 sc2 st st' r,
+  quiet_fin sc1 -> quiet_fin sc2 ->
+  retry_body (invoke_request ev 0 sc1 true None) (invoke_request ev 0 sc2 true None) mode st = (st', r) ->
+  exists m1 r1 st1,
+    invoke_body ev 0 sc1 true None st = (m1, r1) /\
+    invoke_request ev 0 sc1 true None st = (st1, r1) /\
+    fq st1 = [] /\ log st1 = log m1 ++ map (cb_event P_FIN_CB 0 m1) (fq m1) /\
+    ((mode = false /\ (exists v, r1 = Ok v) /\ st' = st1 /\ r = r1) \/
+     ((mode = true \/ exists k, r1 = Ex k) /\
+      let st2 := log_ev 0 P_RETRY 0 st1 in
+      fq st2 = [] /\
+      exists m2 r2,
+        invoke_body ev 0 sc2 true None st2 = (m2, r2) /\ r = r2 /\ fq st' = [] /\
+        log st' = log m2 ++ map (cb_event P_FIN_CB 0 m2) (fq m2))).
+Proof.
+  intros ev mode sc1 sc2 st st' r [F1 R1] [F2 R2] E. unfold retry_body in E.
+  destruct (invoke_request ev 0 sc1 true None st) as [st1 r1] eqn:E1.
+  destruct (finished_callbacks_once_in_order _ _ _ _ _ _ _ _ F1 R1 E1) as [m1 [rm [B1 [Er [_ [Q1 L1]]]]]].
+  subst rm. exists m1, r1, st1. split; [exact B1|]. split; [reflexivity|]. split; [exact Q1|]. split; [exact L1|].
+  assert (Hsec : forall r', seq log_retry (invoke_request ev 0 sc2 true None) st1 = (st', r') ->
+     let st2 := log_ev 0 P_RETRY 0 st1 in
+      fq st2 = [] /\
+      exists m2 r2,
+        invoke_body ev 0 sc2 true None st2 = (m2, r2) /\ r' = r2 /\ fq st' = [] /\
+        log st' = log m2 ++ map (cb_event P_FIN_CB 0 m2) (fq m2)).
+  { intros r' E2. unfold seq, bind, log_retry in E2. cbn zeta. split; [exact Q1|].
+    destruct (finished_callbacks_once_in_order _ _ _ _ _ _ _ _ F2 R2 E2) as [m2 [r2 [B2 [Er2 [_ [Q2 L2]]]]]].
+    exists m2, r2. auto. }
+  destruct r1 as [v|k].
+  - destruct mode.
+    + right. split; [left; reflexivity|]. apply Hsec. exact E.
+    + left. injection E as <- <-. split; [reflexivity|]. split; [exists v; reflexivity|]. split; reflexivity.
+  - right. split; [right; exists k; reflexivity|]. apply Hsec. exact E.
+Qed.
+
+Lemma retry_body_ext (f1 f2 s1 s2 : M) mode st :
+  (forall s, f1 s = f2 s) -> (forall s, s1 s = s2 s) -> retry_body f1 s1 mode st = retry_body f2 s2 mode st.
+Proof.
+  intros Hf Hs. unfold retry_body. rewrite Hf. destruct (f2 st) as [st1 [v|k]].
+  - destruct mode; [|reflexivity]. apply seq_ext; [reflexivity|exact Hs].
+  - apply seq_ext; [reflexivity|exact Hs].
+Qed.
+Theorem gen_run_retry_is_model ev mode sc1 sc2 s0 : gen_run_retry ev mode sc1 sc2 s0 = run_retry ev mode sc1 sc2 s0.
+Proof.
+  unfold gen_run_retry, run_retry. apply fresh_ext. intros s1. apply frame_ext. intros s2.
+  apply retry_body_ext; intros s; unfold prims_top;
+    apply gen_invoke_request_inst; intros s'; apply gen_chain_is_model.
+Qed.
+Example ex_retry :
+  let sc1 := Scn false [mkFault P_VIEW K_PLAIN 0] [mkReg P_NEWREQ 3 0; mkReg P_VIEW 2 0] NoSub in
+  let sc2 := Scn false [] [mkReg P_VIEW 3 0] NoSub in
+  let '(st, r) := run_retry 0 false sc1 sc2 [] in
+  r = Ok P_VIEW /\ judge_retry sc1 sc2 0 (log st) = true /\
+  map e_aux (filter (is_pt P_RESP_CB) (log st)) = [P_NEWREQ; P_VIEW] /\
+  map e_aux (filter (is_pt P_FIN_CB) (log st)) = [P_NEWREQ; P_VIEW; P_VIEW] /\
+  judge_retry sc1 sc2 0 (filter (fun e => negb (is_pt P_FIN_CB e && N.eqb (e_aux e) P_VIEW)) (log st)) = false.
+Proof. vm_compute. repeat split; reflexivity. Qed.
